@@ -517,6 +517,22 @@ fn check_input(prop: &str, s: &dyn Subject, sd: &SubjectDef, p: &Prepared, input
             "C12" => {
                 if utf8 {
                     f.extend(twin_findings(s, input, &obs, run.as_deref_mut(), key));
+                } else if std::str::from_utf8(input).is_err() {
+                    // second clause: in byte mode Unicode-aware patterns never match across invalid sequences -
+                    // the reference (same patterns on bytes) decides; only inputs that are not valid UTF-8 count here
+                    let kind_of = |leaf: usize| p.reflex.pats[leaf].variant.unwrap_or(usize::MAX);
+                    let (jf, _) = judge(&p.reflex, &p.prio, input, &obs.items, obs.ended, &kind_of);
+                    for mut x in jf {
+                        if x.property == "C01" {
+                            x.property = "C12";
+                            x.what = format!("byte-mode lexer on an invalid UTF-8 input: {}", x.what);
+                            f.push(x);
+                        }
+                    }
+                    if let Some(run) = run.as_deref_mut() {
+                        run.nontrivial(key);
+                        run.count("byte_mode_inputs_with_invalid_utf8", 1);
+                    }
                 }
             }
             "C13" => {
